@@ -20,15 +20,16 @@ ct = os.path.join(V, "harness", "Cargo.toml")
 _t = open(ct).read().replace("/repo/crates/sas-lexer", R + "/crates/sas-lexer")
 open(ct, "w").write(_t)
 env = dict(os.environ, VERIF_REPO=R, VERIF_NCPU=os.environ.get("VERIF_NCPU", "8"))
-seeds = seeds or sorted(os.listdir("/verif/seeded"))
+SD = os.environ.get("VERIF_SEED_DIR", "/verif/seeded")
+seeds = seeds or sorted(os.listdir(SD))
 res = json.load(open(outp)) if os.path.exists(outp) else {}
 subprocess.run([os.path.join(V, "check"), "--setup"], cwd=V, env=env, capture_output=True)
 for sid in seeds:
-    meta = json.load(open(f"/verif/seeded/{sid}/meta.json"))
+    meta = json.load(open(f"{SD}/{sid}/meta.json"))
     own = meta.get("property", sid[:3])
     plist = props or [own]
     subprocess.run(["git", "-C", R, "checkout", "--", "."], check=True)
-    r = subprocess.run(["git", "-C", R, "apply", f"/verif/seeded/{sid}/patch.diff"], capture_output=True, text=True)
+    r = subprocess.run(["git", "-C", R, "apply", f"{SD}/{sid}/patch.diff"], capture_output=True, text=True)
     if r.returncode != 0:
         res.setdefault(sid, {})["apply"] = r.stderr[:200]
         continue
